@@ -185,7 +185,7 @@ def service_forms(args):
                            htc=num(hmul * (0.5 + 1.5 * ((i + idx) % 2)), "kW/m2K")))
         return dict(streams=st, utilities=[], options={"DT_CONT": emb.dT(50), "DT_PHASE_CHANGE": emb.dT(10), "DO_AREA_TARGETING": True, "HTC": hmul * 1.0})   # default utilities take the option HTC
     out = {}
-    for label, vu, hmul in (("float", False, 1.0), ("value_with_unit", True, 1.0), ("float_2h", False, 2.0)):
+    for label, vu, hmul in (("float", False, 1.0), ("value_with_unit", True, 1.0), ("float_2h", False, 2.0), ("float_1e7h", False, 1e7)):
         try:
             _, site = _OP["service"](req(vu, hmul), project_name="Site", is_return_full_results=True)
             t = site.subzones["Z"].targets["Z/Direct Integration"]
@@ -299,7 +299,7 @@ def check(prop, tier, run: Run, replay_case=None):
         fres = pool.map(service_forms, list(enumerate(sel)), chunksize=4)
     for r_ in fres:
         case, o = sel[r_["idx"]], r_["out"]
-        run.cov["evaluations"] += 3
+        run.cov["evaluations"] += 4
         run.cov["traces_validated_against_impl"] += 1
         if any(isinstance(v, str) for v in o.values()):
             if len({v if isinstance(v, str) else "ok" for v in o.values()}) > 1:          # one form raises, another does not
@@ -310,6 +310,9 @@ def check(prop, tier, run: Run, replay_case=None):
             run.violation("C15.area_same_in_every_input_form", dict(input=case, gap=False), dict(forms=o), leg="T")
         if abs(a[0] - 2.0 * c_[0]) > 1e-6 * max(1.0, a[0]):
             run.violation("C15.area_linear_in_film_resistances", dict(input=case, gap=False), dict(forms=o), leg="T")
+        # "all film coefficients": the same law across seven orders of magnitude (resistances of 1e-7 m2K/kW are still resistances)
+        if abs(a[0] - 1e7 * o["float_1e7h"][0]) > 1e-6 * max(1.0, a[0]):
+            run.violation("C15.area_linear_in_film_resistances.large_coefficients", dict(input=case, gap=False), dict(forms=o), leg="T")
     run.notes["service_forms"] = dict(problems=len(sel), forms=["float", "value_with_unit", "float, film coefficients doubled"])
     run.cov["distinct_nontrivial"] = sum(1 for _, r_ in evs if len(r_["ev"]["ints"]) >= 3)
     run.cov["rule"] = ("cost laws: full parameter grid (TLC exhaustive, all replayed); area: stream multisets x isothermal ladders from the Utility.tla enumeration with "
